@@ -414,7 +414,7 @@ def chain_subslot(rng, n):
         G = rng.choice([3600, 3600, 1800, 900])
         p = Proj(start=datetime(2024, 1, 1) + timedelta(days=7 * rng.randrange(0, 3)), G=G)
         nres = rng.choice([1, 1, 2])
-        effs = ["1", "1", "2", "0.5", "1.5", "0.8", "1.25"]
+        effs = ["1", "1", "2", "0.5", "1.5", "0.8", "1.25", "0.7", "0.9", "1.1", "0.3"]      # 0.7 etc.: slot residues are fractions of a second
         rs = [p.add_res("r%d" % k, eff=rng.choice(effs) if rng.random() < 0.4 else "1") for k in range(nres)]
         nt = rng.randint(2, 6)
         ts = []
@@ -436,6 +436,31 @@ def chain_subslot(rng, n):
                                          seconds=rng.choice([G // 2, G // 4, G // 3, 600, 0]) // 60 * 60)
             ts.append(p.add_task("t%d" % k, effort=eff_secs, alloc=[r], deps=deps, prio=prio, start=st))
         out.append(("sub%04d" % i, p))
+    return out
+
+
+def mixed_subslot(rng, n):
+    """C01 / C03 / C06: backward-mode tasks (own deadline, sub-slot effort: they leave the FRONT of their earliest slot
+    free) and forward-mode tasks (mid-slot bounds through predecessors on another resource: they leave the BACK of their last
+    slot free) meeting in the slots of one resource."""
+    out = []
+    for i in range(n):
+        G = rng.choice([3600, 3600, 1800])
+        day0 = datetime(2025, 1, 6)
+        p = Proj(start=day0, G=G, length="+4w")
+        r = p.add_res("r0")
+        q = p.add_res("q0")
+        units = [u for u in (G // 2, G // 3, G // 4, G // 6, 600, 60 * 7) if u % 60 == 0 and u > 0]
+        for k in range(rng.randint(1, 2)):
+            dl = day0 + timedelta(days=rng.choice([0, 0, 0, 1]), hours=rng.choice([10, 10, 11, 11, 12, 14]), seconds=rng.choice([0, 0, G // 2]) // 60 * 60)
+            p.add_task("z%d" % k, effort=G * rng.randint(0, 3) + rng.choice(units), alloc=[r], end=dl, mode="alap", prio=rng.choice([1000, 900, 300]))
+        ts = []
+        for k in range(rng.randint(1, 4)):
+            pre = p.add_task("a%d" % k, effort=rng.choice(units) * rng.randint(1, 3), alloc=[q], prio=rng.choice([None, 800]))
+            gap = rng.choice([0, 0, G // 2 // 60 * 60])
+            ts.append(p.add_task("b%d" % k, effort=G * rng.randint(0, 4) + rng.choice(units + [0]) or G, alloc=[r], deps=[(pre, False, gap)],
+                                 prio=rng.choice([None, 100, 950])))
+        out.append(("mix%04d" % i, p))
     return out
 
 
@@ -878,7 +903,12 @@ def alap_profile(rng, n):
                 mates = [x for x in rs if x is not r and x.eff == r.eff]
                 if mates:
                     team = [r, mates[0]] if rng.random() < 0.5 else [mates[0], r]      # the busier member may be listed first or last
-            t = p.add_task("t%d" % k, parent=cont if (cont and rng.random() < 0.7) else None, effort=effort, alloc=team,
+            alts = []
+            if len(team) == 1 and len(rs) > 1 and rng.random() < 0.3:
+                # a backward task that may be done by somebody else: the choice is made once, before the first slot is booked
+                alts = [x for x in rs if x is not r]
+                rng.shuffle(alts)
+            t = p.add_task("t%d" % k, parent=cont if (cont and rng.random() < 0.7) else None, effort=effort, alloc=team, alt=alts,
                            deps=deps, mode=None if proj_alap else "alap")
             ts.append(t)
         sinks = [t for t in ts if not any(d[0] is t for u in ts for d in u.deps)]
@@ -1049,6 +1079,39 @@ def gap_bounds(rng, n):
                 sx.end = rng.choice(ends)
                 succs.append(sx)
         out.append(("gapb%04d" % i, p))
+    return out
+
+
+def year_end(rng, n):
+    """C02 / C05 / C14: projects that run over New Year (incl. the 53-week year 2020 and years whose 1 January is not a
+    Monday: the ISO week of New Year belongs to two calendar years): global vacations and resource leaves over the holidays,
+    resources with hours of their own, weekly limits counted in the week that straddles the year."""
+    out = []
+    for i in range(n):
+        G = rng.choice([3600, 3600, 1800])
+        year = rng.choice([2024, 2025, 2020, 2026, 2023])
+        start = datetime(year, 12, rng.randint(8, 20))
+        vac = []
+        a = datetime(year, 12, rng.choice([21, 23, 24, 27, 30, 31]))
+        b = datetime(year + 1, 1, rng.choice([1, 2, 3, 6, 9]))
+        if rng.random() < 0.8:
+            vac.append((a, b))
+        gl = [(datetime(year + 1, 1, 1), None)] if rng.random() < 0.4 else []
+        p = Proj(start=start, G=G, length="+8w", vac=vac, gleaves=gl)
+        rs = []
+        for k in range(rng.randint(1, 3)):
+            hours = rng.choice([None, std_hours(480, 960), std_hours(540, 1080, range(6)), {d: [(1320, 360)] for d in range(5)}, std_hours(360, 840, range(7))])
+            leaves = []
+            if rng.random() < 0.4:
+                l0 = datetime(year, 12, rng.randint(27, 31))
+                leaves.append((l0, l0 + timedelta(days=rng.randint(2, 9))))
+            lim = [("w", 3600 * rng.choice([8, 16, 20]))] if rng.random() < 0.4 else []
+            rs.append(p.add_res("r%d" % k, hours=hours, leaves=leaves, limits=lim))
+        ts = []
+        for k in range(rng.randint(2, 5)):
+            deps = [(rng.choice(ts), False, rng.choice([0, 0, G, 86400]))] if ts and rng.random() < 0.4 else []
+            ts.append(p.add_task("t%d" % k, effort=G * rng.randint(8, 90), alloc=[rng.choice(rs)], deps=deps, prio=rng.choice([None, 300, 700])))
+        out.append(("ny%04d" % i, p))
     return out
 
 
@@ -1646,6 +1709,20 @@ def dup_leaf_ids(rng, n):
         for c in conts:
             for nm in names:
                 kids[(c.name, nm)] = p.add_task(nm, parent=c, effort=G * rng.randint(2, 40), alloc=[rng.choice(rs)])
+        if rng.random() < 0.5:
+            # a container nested two levels down carries the local id of a top-level container, and both have children
+            # with the same ids; the nested ones refer to each other as siblings ('!id'): the reference is relative to
+            # the nested container, whatever else is called like it
+            top = conts[0]
+            outer = p.add_task("release")
+            twin = p.add_task(top.name, parent=outer)
+            prev = None
+            for nm_ in names + ["pack"]:
+                t = p.add_task(nm_, parent=twin, effort=G * rng.randint(2, 12), alloc=[rng.choice(rs)],
+                               deps=[(prev, False, rng.choice([0, G]))] if prev is not None else [])
+                prev = t
+            if ("pack" not in names):
+                kids[(top.name, "pack")] = p.add_task("pack", parent=top, effort=G * rng.randint(20, 60), alloc=[rng.choice(rs)])
         join = p.add_task("integrate", effort=G * rng.randint(4, 16), alloc=[rng.choice(rs)])
         nm = rng.choice(names)
         for c in conts:
@@ -1695,10 +1772,10 @@ def container_gate(rng, n):
         G = rng.choice([3600, 1800])
         p = Proj(start=datetime(2025, 1, 6), G=G, length="+6w")
         rs = [p.add_res("r%d" % k) for k in range(rng.randint(1, 2))]
-        box = p.add_task("build")
+        box = p.add_task("build", prio=rng.choice([None, None, 800, 200, 650]))      # inherited by everything below that states none of its own
         inner = None
         if rng.random() < 0.6:
-            inner = p.add_task("stage", parent=box)
+            inner = p.add_task("stage", parent=box, prio=rng.choice([None, None, 350]))
             if rng.random() < 0.4:
                 inner = p.add_task("step", parent=inner)          # the leaves that complete `build` sit two or three levels below it
         events_only = rng.random() < 0.2
@@ -1833,6 +1910,7 @@ def repeated_statements(k):
     out.append(("task_limits", head % "" + 'resource r1 "R1" {}\ntask tgt "T" {\n  effort 5d\n  allocate r1\n' + rep(lambda i: "  limits { dailymax %dh }\n" % (4 + i % 4)) + "}\n"))
     out.append(("task_flags", head % "" + "flags " + ", ".join("f%d" % i for i in range(k)) + '\nresource r1 "R1" {}\ntask tgt "T" {\n  effort 5d\n  allocate r1\n' + rep(lambda i: "  flags f%d\n" % i) + "}\n"))
     out.append(("nested_containers", head % "" + 'resource r1 "R1" {}\n' + rep(lambda i: "  " * i + 'task c%d "C" {\n' % i) + "  " * k + 'task leaf "L" { effort 2d allocate r1 }\n' + "".join("  " * (k - 1 - i) + "}\n" for i in range(k))))
+    out.append(("nested_containers_stuck", head % "" + 'resource r1 "R1" {\n  leaves annual 2025-01-01 - 2026-06-01\n}\nresource r2 "R2" {}\n' + rep(lambda i: "  " * i + 'task c%d "C" {\n' % i) + "  " * k + 'task leaf "L" { effort 2d allocate r1 }\n' + "".join("  " * (k - 1 - i) + "}\n" for i in range(k)) + 'task w "W" { effort 5d allocate r2 }\n'))
     out.append(("nested_groups", head % "" + rep(lambda i: "  " * i + 'resource g%d "G" {\n' % i) + "  " * k + 'resource r1 "R1" {}\n' + "".join("  " * (k - 1 - i) + "}\n" for i in range(k)) + work))
     out.append(("scenarios_flat", head % ('  scenario plan "Plan" {\n' + rep(lambda i: '    scenario s%d "S"\n' % i) + "  }\n") + 'resource r1 "R1" {}\n' + work))
     out.append(("reports", head % "" + 'resource r1 "R1" {}\n' + work + rep(lambda i: 'taskreport rep%d "rep%d" {\n  formats csv\n  columns id, start, end\n}\n' % (i, i))))
